@@ -65,17 +65,25 @@ func runC19(c *core.Ctx) {
 	}
 	classCall := func(v ssa.Value, arg ssa.Value) bool {
 		call, ok := stripConv(v).(*ssa.Call)
-		if !ok || call.Call.IsInvoke() || len(call.Call.Args) != 1 {
+		if !ok || call.Call.IsInvoke() || len(call.Call.Args) == 0 {
 			return false
 		}
-		f, _ := core.FieldOf(call.Call.Value)
-		if f == nil {
-			return false
+		last := call.Call.Args[len(call.Call.Args)-1]
+		if f, _ := core.FieldOf(call.Call.Value); f != nil && len(call.Call.Args) == 1 {
+			// the class function kept in a func-typed field
+			if _, isFn := f.Type().Underlying().(*types.Signature); !isFn {
+				return false
+			}
+			return arg == nil || core.SameValue(last, arg)
 		}
-		if _, isFn := f.Type().Underlying().(*types.Signature); !isFn {
-			return false
+		// or a method of the pool: func (p *Pool[T]) class(size int) int
+		if g := call.Call.StaticCallee(); g != nil && g.Signature.Recv() != nil && len(call.Call.Args) == 2 && p.PkgRel(g) == "utils/pool" {
+			res := g.Signature.Results()
+			if res.Len() == 1 && isIntT(res.At(0).Type()) && isIntT(last.Type()) {
+				return arg == nil || core.SameValue(last, arg)
+			}
 		}
-		return arg == nil || core.SameValue(call.Call.Args[0], arg)
+		return false
 	}
 	for _, fn := range puts {
 		c.FuncsSeen[fn.String()] = true
@@ -215,6 +223,67 @@ func runC19(c *core.Ctx) {
 			})
 		}
 		c.Check(good, "R1", name, p.Pos(fn.Pos()), "normalises by the class function, guards the index, returns the class size", "generic Get: "+why)
+		// exclusive ownership rests on sync.Pool alone: the object Get hands out is what sync.Pool.Get returned
+		// (type-asserted) or the zero value, nothing cached elsewhere
+		c.Instance("R3")
+		srcOK, srcWhy := true, ""
+		core.AllInstrs(fn, func(in ssa.Instruction) {
+			ret, ok := in.(*ssa.Return)
+			if !ok || len(ret.Results) == 0 {
+				return
+			}
+			seen := map[ssa.Value]bool{}
+			var walk func(v ssa.Value, d int)
+			walk = func(v ssa.Value, d int) {
+				if seen[v] || d > 6 {
+					return
+				}
+				seen[v] = true
+				switch x := v.(type) {
+				case *ssa.Const:
+					return
+				case *ssa.Phi:
+					for _, e := range x.Edges {
+						walk(e, d+1)
+					}
+				case *ssa.TypeAssert:
+					walk(x.X, d+1)
+				case *ssa.Extract:
+					walk(x.Tuple, d+1)
+				case *ssa.ChangeType:
+					walk(x.X, d+1)
+				case *ssa.MakeInterface:
+					walk(x.X, d+1)
+				case *ssa.Call:
+					if isSyncPool(x, "Get") {
+						return
+					}
+					srcOK, srcWhy = false, "returns the result of "+x.Call.String()
+				case *ssa.UnOp:
+					if x.Op == token.MUL {
+						if al, ok := x.X.(*ssa.Alloc); ok {
+							// a local `var zero T`
+							onlyZero := true
+							for _, ref := range *al.Referrers() {
+								if st, ok := ref.(*ssa.Store); ok && st.Addr == ssa.Value(al) {
+									if _, isC := st.Val.(*ssa.Const); !isC {
+										onlyZero = false
+									}
+								}
+							}
+							if onlyZero {
+								return
+							}
+						}
+					}
+					srcOK, srcWhy = false, "returns a value loaded from "+x.X.String()
+				default:
+					srcOK, srcWhy = false, "returns "+v.String()
+				}
+			}
+			walk(ret.Results[0], 0)
+		})
+		c.Check(srcOK, "R3", name+"/object-from-sync-pool", p.Pos(fn.Pos()), "hands out only what sync.Pool.Get returned (or the zero value)", "generic Get hands out an object that does not come from sync.Pool.Get ("+srcWhy+"): exclusive ownership is no longer guaranteed by sync.Pool (two concurrent Gets can receive the same object)")
 	}
 
 	// ---- wrappers
@@ -582,8 +651,42 @@ func classClampsToStep(p *core.Prog, fn *ssa.Function) bool {
 			}
 		}
 	})
-	if field == nil {
+	clampsIn := func(cf *ssa.Function) bool {
+		if cf == nil || cf.Blocks == nil || len(cf.Params) == 0 {
+			return false
+		}
+		prm := cf.Params[len(cf.Params)-1]
+		for _, ifi := range core.Ifs(cf) {
+			cd := core.CondOf(ifi)
+			if (cd.Op != token.LEQ && cd.Op != token.LSS) || !core.SameValue(cd.X, prm) {
+				continue
+			}
+			t, _ := core.Search(nil, cd.True, func(x ssa.Instruction) core.Action {
+				if ret, ok := x.(*ssa.Return); ok {
+					if len(ret.Results) == 1 && core.SameValue(ret.Results[0], cd.Y) {
+						return core.Barrier
+					}
+					return core.Target
+				}
+				return core.Continue
+			}, nil)
+			if t == nil {
+				return true
+			}
+		}
 		return false
+	}
+	if field == nil {
+		// the class function as a method of the pool
+		var meth *ssa.Function
+		core.AllInstrs(fn, func(in ssa.Instruction) {
+			if call, ok := in.(*ssa.Call); ok && !call.Call.IsInvoke() {
+				if g := call.Call.StaticCallee(); g != nil && g.Signature.Recv() != nil && len(call.Call.Args) == 2 && p.PkgRel(g) == "utils/pool" && g.Signature.Results().Len() == 1 && isIntT(g.Signature.Results().At(0).Type()) {
+					meth = g
+				}
+			}
+		})
+		return clampsIn(meth)
 	}
 	n, okAll := 0, true
 	for _, g := range p.Funcs {
